@@ -1018,6 +1018,16 @@ theorem any_forest_walk_refines_eval (a : Arena) (env : Env) (start : Nat) (t : 
   exact run_of_sim (L2.walk_lower t x h _)
 
 open Xsel.Walk in
+/-- **any_forest_refines_spec** — forest → value → specification for EVERY derivation tree that denotes an
+    expression: the walk of the Go code over `t` gives what the XPath 1.0 specification gives for the
+    expression `t` denotes (up to the listing order of a node-set, with the recorded `round` deviation), on
+    every tree that satisfies the Cursor contract. -/
+theorem any_forest_refines_spec (a : Arena) (h : wfb a = true) (env : Env) (henv : EnvOk a env)
+    (t : PT) (x : Expr) (hl : L2.lower t = some x) (start : Nat) (hs : start < a.size) (hsum : sumSafe true x = true) :
+    ∃ r, Walk.run Generated.handlers a env start t = ofEval r ∧ Res.Equiv r (Spec.runKF a env start x) :=
+  ⟨_, any_forest_walk_refines_eval a env start t x hl, Xsel.C02.run_refines_spec' a h env henv x start hs hsum⟩
+
+open Xsel.Walk in
 /-- **lower_inverts_derivTop** — the trees `any_forest_walk_refines_eval` speaks about include every canonical
     tree: `lower` reads `derivTop e` back as `e` (`.` as `self::node()`).  (`forest_walk_refines_eval` is
     therefore a corollary of the two.) -/
